@@ -28,7 +28,7 @@ class Stmt:
         k = self.kind
         if k in ("add", "gate"):
             return self.args[:2]
-        if k in ("acc", "pass", "sink", "probe", "errts"):
+        if k in ("acc", "pass", "sink", "probe", "errts", "errtsv"):
             return self.args[:1]
         if k == "addk":
             return self.args[1:3]
@@ -218,12 +218,17 @@ def elaborate(p):
             elif k == "probe":
                 r = ref(s.args[0], True)
                 nodes.append(FNode(lab, k, [(r[0], True, True, r[3], r[4])], {}, region))
-            elif k == "errts":
+            elif k in ("errts", "errtsv"):
                 r = ref(s.args[0])
+                has_ins = False
                 for n in nodes:
                     if n.label == r[0]:
                         n.params["captures"] = True
-                nodes.append(FNode(lab, "errmsg", [(r[0], False, False, "err", False)], {}, region)); env[key] = (lab, "main")
+                        has_ins = bool(n.ins)
+                prm = {}
+                if k == "errtsv":    # explicit ErrorCaptureOptions(depth, capture_values): v = the back trace carries input values
+                    prm["v"] = 1 if (int(s.args[1]) != 0 and int(s.args[2]) != 0 and has_ins) else 0
+                nodes.append(FNode(lab, "errmsg", [(r[0], False, False, "err", False)], prm, region)); env[key] = (lab, "main")
             elif k in ("nested", "tryx", "inline"):
                 ar, body, out = p.subs[int(s.args[0])]
                 def argkey(a):
@@ -606,7 +611,8 @@ class Den:
                 if self.ivalid(src) and self.imod(src, t):
                     logs.append("X %s %d %s" % (n.label, t, self.err[a[0]])); write(n.label, 1)
             elif k == "errmsg":
-                logs.append("X %s %d %s" % (n.label, t, self.err[a[0]])); write(n.label, 1)
+                sfx = " v=%d" % n.params["v"] if "v" in n.params else ""
+                logs.append("X %s %d %s%s" % (n.label, t, self.err[a[0]], sfx)); write(n.label, 1)
             elif k == "fbsrc":
                 v = st["fb"][1]; st["fb"] = None; write(n.label, v)
             elif k == "fbsink":
@@ -964,7 +970,10 @@ def gen_try(rng, capture_kind):
         body.append(Stmt(lbl, "sink", [o])); lbl += 1
     else:
         body.append(Stmt(lbl, "thrower", [77, 1])); t = lbl; lbl += 1
-        body.append(Stmt(lbl, "errts", [t])); lbl += 1
+        if rng.random() < 0.6:      # explicit capture options: depth 0-2, with / without captured values
+            body.append(Stmt(lbl, "errtsv", [t, rng.choice([0, 1, 1, 2]), rng.choice([0, 1])])); lbl += 1
+        else:
+            body.append(Stmt(lbl, "errts", [t])); lbl += 1
         body.append(Stmt(lbl, "sink", [t])); lbl += 1
     # an independent branch that must not be disturbed
     body.append(Stmt(lbl, "acc", [1])); a = lbl; lbl += 1
@@ -1028,7 +1037,8 @@ def gen_sched_capture(rng):
         body.append(Stmt(2, "script", [902, 1]))
     else:
         body.append(Stmt(2, "script", [902]))
-    body += [Stmt(3, "errts", [2]), Stmt(4, "sink", [2]), Stmt(5, "acc", [1]), Stmt(6, "sink", [5])]
+    cap = Stmt(3, "errtsv", [2, rng.choice([0, 1, 1, 2]), rng.choice([0, 1])]) if rng.random() < 0.5 else Stmt(3, "errts", [2])
+    body += [cap, Stmt(4, "sink", [2]), Stmt(5, "acc", [1]), Stmt(6, "sink", [5])]
     p.root = kahn_order(body)
     return p
 
